@@ -14,7 +14,7 @@ from .c02 import validate_segments
 def models(ck, tier):
     r = common.tlc("MC_ZckTool", "MC_ZckTool.cfg", workers=8, timeout=900)
     ck.require_ok("ZckTool", r); ck.add_tlc("ZckTool/MC_ZckTool.cfg", r, "alphabet {a,b,x}, split strings a, ab, aba, aab, inputs <= 6, blocks 1..3")
-    for cfg in ("MC_WriterAuto.cfg", "MC_WriterManual.cfg", "MC_WriterAutoTight.cfg"):
+    for cfg in ("MC_WriterAuto.cfg", "MC_WriterManual.cfg", "MC_WriterAutoTight.cfg", "MC_WriterAutoBigMin.cfg"):
         r = common.tlc("MC_WriterImpl", cfg, workers=8, timeout=900)
         ck.require_ok("WriterImpl/" + cfg, r); ck.add_tlc("WriterImpl/" + cfg, r)
     # the assumption of the chunker model: no byte value whose constant window matches the mask
